@@ -90,9 +90,13 @@ type rchunk struct {
 type TConn struct {
 	log *evlog
 	// write side
-	calls  int
-	faults map[int]fault
-	wire   []byte
+	calls   int
+	faults  map[int]fault
+	wire    []byte
+	curWD   time.Time // write deadline in force (last SetWriteDeadline that succeeded)
+	wantWD  time.Time
+	wantSet bool
+	wdBad   string
 	// read side
 	chunks   [][]byte
 	term     error // terminal error, repeated forever once reached
@@ -112,8 +116,8 @@ type TConn struct {
 	gfired bool
 	// replies computed from what has been written so far: each time a Read finds no chunks, the next
 	// function of the queue is consulted (dynReply is the single-reply shorthand)
-	dynReply func(wire []byte) []byte
-	dynQ     []func(wire []byte) []byte
+	dynReply  func(wire []byte) []byte
+	dynQ      []func(wire []byte) []byte
 	allChunks [][]byte // every non-empty result of Read, in order
 }
 
@@ -166,6 +170,7 @@ func (c *TConn) Write(p []byte) (int, error) {
 	c.calls++
 	f, ok := c.faults[k]
 	cp := append([]byte(nil), p...)
+	c.checkWD(len(p))
 	if !ok {
 		c.wire = append(c.wire, cp...)
 		if !c.quiet {
@@ -187,6 +192,18 @@ func (c *TConn) Write(p []byte) (int, error) {
 	return n, &tErr{id: f.id, timeout: f.to}
 }
 
+// wantDeadline tells the transport which write deadline the next API call asked for; Write records the
+// first transport write that happens under a different one.
+func (c *TConn) wantDeadline(t time.Time) {
+	c.wantWD, c.wantSet = t, true
+}
+
+func (c *TConn) checkWD(n int) {
+	if c.wantSet && c.wdBad == "" && !c.curWD.Equal(c.wantWD) {
+		c.wdBad = fmt.Sprintf("transport write of %d bytes under write deadline %s, the caller asked for %s", n, timeTok(c.curWD), timeTok(c.wantWD))
+	}
+}
+
 func (c *TConn) SetWriteDeadline(t time.Time) error {
 	if c.gen {
 		return c.gop("SWD:" + deadlineClass(t))
@@ -195,6 +212,7 @@ func (c *TConn) SetWriteDeadline(t time.Time) error {
 	c.calls++
 	f, ok := c.faults[k]
 	if !ok {
+		c.curWD = t
 		if !c.quiet {
 			c.log.add("swd:" + timeTok(t))
 		}
@@ -338,9 +356,12 @@ type tPool struct {
 	free    []poolItem
 	nextID  int
 	corrupt int
+	nGet    int
+	nPut    int
 }
 
 func (p *tPool) Get() interface{} {
+	p.nGet++
 	if len(p.free) == 0 {
 		p.log.add("get:miss")
 		return nil
@@ -360,6 +381,7 @@ func (p *tPool) Get() interface{} {
 }
 
 func (p *tPool) Put(v interface{}) {
+	p.nPut++
 	b := peekPooled(v)
 	if b == nil {
 		p.log.add("put:nil")
